@@ -204,6 +204,9 @@ def verdicts(ctx, w, inputs, results, wit):
         ctx.violation("bound-object-not-shared", wit, f"bound object holds {w.bound_obj}, expected the marks of all runs {runs}")
 
 
+_SHARED_RUNNERS = {}
+
+
 def replay_mapped(n, is_async, bind_at, via_runner_map, clone=False, swap=False):
     """The items of a map are runs of the mapped graph (sequential history 1..n of Isolation.tla):
     a mapping GraphNode (zip over inp/mark) or runner.map over the same nested graph."""
@@ -212,7 +215,9 @@ def replay_mapped(n, is_async, bind_at, via_runner_map, clone=False, swap=False)
     inps = [[] for _ in marks]
     w.aux, w.aux2 = ["aux"], ["aux2"]          # broadcast values owned by the caller
     values = {("acc" if swap and not via_runner_map else "inp"): inps, "mark": marks, "aux": w.aux, "aux2": w.aux2}
-    runner = AsyncRunner() if is_async else SyncRunner()
+    # ONE runner per kind serves all these replays (graphs whose mapping node has the same name but another
+    # configuration follow each other on it): nothing a runner keeps may carry over from one graph to the next
+    runner = _SHARED_RUNNERS.setdefault(is_async, AsyncRunner() if is_async else SyncRunner())
     if via_runner_map:
         call = runner.map(w.graph, values, map_over=["inp", "mark"], clone=clone, on_internal_override="ignore")
     else:
